@@ -121,7 +121,7 @@ def install(events, spec):
     ex.TestCaseExecutor.execute = execute
 
     # batches run by the subprocess executor (assertion filtering, mutation analysis): [draw index, -number of tests,
-    # number of timed-out results, "subprocess", hash of the timeout pattern, 0]; their timeouts are wall-clock as well
+    # number of timed-out results, "subprocess", hash of the timeout pattern, number of timed-out NON-EMPTY tests]
     import pynguin.testcase.subprocess_executor as sub
 
     orig_multiple = sub.SubprocessTestCaseExecutor.execute_multiple
@@ -133,7 +133,8 @@ def install(events, spec):
         state["subprocess_batches"] = state.get("subprocess_batches", 0) + 1
         if len(execs) < MAX_DRAWS:
             pattern = "".join("T" if (r is not None and r.timeout) else "." for r in results)
-            execs.append([at, -len(tests), pattern.count("T"), "subprocess", hashlib.sha1(pattern.encode()).hexdigest()[:10], 0])
+            nonempty_timeouts = sum(1 for t, r in zip(tests, results) if r is not None and r.timeout and t.size() > 0)
+            execs.append([at, -len(tests), pattern.count("T"), "subprocess", hashlib.sha1(pattern.encode()).hexdigest()[:10], nonempty_timeouts])
         return results
 
     sub.SubprocessTestCaseExecutor.execute_multiple = execute_multiple
@@ -315,7 +316,10 @@ def diagnose(res_a, res_b):
         if "subprocess" in (A[3], B[3]):
             # a batch of the subprocess executor (assertion filtering / mutation analysis).  After a timeout the executor
             # falls back to smaller batches, so a timeout shows up as another timeout count or another batch shape.
-            if A[2] or B[2]:
+            if (A[2] or B[2]) and A[5] == 0 and B[5] == 0 and A[1] == B[1]:
+                # every timed-out test of the batch is an EMPTY test case: the join(timeout=0) race, not machine load
+                out.update(kind="timing", key="timing:timeout-flag-differs:empty-test")
+            elif A[2] or B[2]:
                 out.update(kind="timing", key="timing:subprocess-batch-timeout:nonempty-test")
             else:
                 out.update(kind="generation", key="subprocess-batch-differs-without-timeout")
